@@ -10,6 +10,7 @@ PROPS = ["C%02d" % i for i in range(1, 21)]
 names = sys.argv[1:]
 saved = {f: open(f, "rb").read() for f in glob.glob(ROOT + "/evidence/*.json")}
 import atexit
+atexit.register(lambda: subprocess.run([ROOT + "/check", "--extract"], cwd=ROOT, capture_output=True))  # generated files back to the clean tree
 atexit.register(lambda: [open(f, "wb").write(b) for f, b in saved.items()])
 out = {}
 rp = ROOT + "/seeded/quiet_results.json"
